@@ -161,7 +161,7 @@ func destPass(r *enumlib.Run, c *corpus) {
 								fmt.Sprintf("%s(%s) (%d octets) into a fresh destination: %s  BUT  into the destination that held the result of %s: %s", kindNames[kind], in.Second, len(b), fresh, in.First, got),
 								in, destGoTest(kind, sa.b, b, false))
 						}
-						if before != after {
+						if got.panicked == "" && before != after { // (a panic of the second decode is reported by (i); the first value was not looked at again)
 							report("C01:earlier-result-rewritten:"+decoderOf(kind, sa.b),
 								fmt.Sprintf("%s(%s) returned %s; after the caller decoded %s into the same variable, the value it had been given for the first datagram reads %s", kindNames[kind], in.First, before, in.Second, after),
 								in, destGoTest(kind, sa.b, b, true))
@@ -202,5 +202,5 @@ func replayDest(raw json.RawMessage) (string, bool) {
 	fresh, _, _ := destDecode(kind, nil, b)
 	got, before, after := destDecode(kind, a, b)
 	desc := fmt.Sprintf("%s: first %s, then %s\n  fresh destination:  %s\n  reused destination: %s\n  first value before: %s\n  first value after:  %s", in.Entry, in.First, in.Second, fresh, got, before, after)
-	return desc, !got.same(fresh) || before != after
+	return desc, !got.same(fresh) || (got.panicked == "" && before != after)
 }
